@@ -108,6 +108,167 @@ def constants():
     t += f"def PSBT_IN_FINAL_SCRIPTWITNESS : Nat := {psbt_in.PSBT_IN_FINAL_SCRIPTWITNESS[0]}\n"
     t += f"def PSBT_IN_NON_WITNESS_UTXO : Nat := {psbt_in.PSBT_IN_NON_WITNESS_UTXO[0]}\n"
     t += f"def PSBT_IN_WITNESS_UTXO : Nat := {psbt_in.PSBT_IN_WITNESS_UTXO[0]}\n"
+    t += _psbt_out_tables()
+    t += _psbt_global_tables()
+    return t
+
+
+def _emission(mod, fn_node, funcs, prefix):
+    """(order, written-under-`is not None`) of the serialize_* calls of fn_node, helpers inlined in call order"""
+    order, not_none = [], []
+
+    def const_of(node):
+        if isinstance(node, ast.Name) and node.id.startswith(prefix):
+            return getattr(mod, node.id)[0]
+        if isinstance(node, ast.Constant) and node.value == b"":
+            return 256
+        return None
+
+    class V(ast.NodeVisitor):
+        def __init__(self):
+            self.nn = 0
+
+        def visit_If(self, node):
+            t_ = node.test
+            nn = (isinstance(t_, ast.Compare) and isinstance(t_.ops[0], ast.IsNot)
+                  and isinstance(t_.comparators[0], ast.Constant) and t_.comparators[0].value is None)
+            self.nn += nn
+            for b in node.body:
+                self.visit(b)
+            self.nn -= nn
+            for b in node.orelse:
+                self.visit(b)
+
+        def visit_Call(self, node):
+            name = getattr(node.func, "id", "")
+            if name in funcs and name.startswith("_serialized"):
+                self.visit(funcs[name])
+                return
+            if name.startswith("serialize") and node.args:
+                c = const_of(node.args[0])
+                if c is not None:
+                    order.append(c)
+                    if self.nn:
+                        not_none.append(c)
+                    for a in node.args[1:]:
+                        self.visit(a)
+                    return
+            self.generic_visit(node)
+
+    V().visit(fn_node)
+    return order, not_none
+
+
+def _psbt_global_tables():
+    from btclib.psbt import psbt as m
+    modtree = ast.parse(inspect.getsource(m))
+    funcs = {n.name: n for n in modtree.body if isinstance(n, ast.FunctionDef)}
+    cls = next(n for n in modtree.body if isinstance(n, ast.ClassDef) and n.name == "Psbt")
+    meth = {n.name: n for n in cls.body if isinstance(n, ast.FunctionDef)}
+    order, not_none = _emission(m, meth["serialize"], funcs, "PSBT_GLOBAL_")
+    if len(set(order)) != len(order) or order.count(256) != 1:
+        raise ValueError(f"Psbt.serialize: emission order malformed: {order}")
+    # fields of the dispatch of _parse_global_map: `X[k[1:]] = …` under the branch makes a key-data field
+    keyed, whole = [], [k[0] for k in m._V2_GLOBAL_PARSERS]
+    for n in ast.walk(funcs["_parse_global_map"]):
+        if isinstance(n, ast.If) and isinstance(n.test, ast.Compare) and ast.unparse(n.test.left) == "type_" \
+                and isinstance(n.test.ops[0], ast.Eq) and isinstance(n.test.comparators[0], ast.Name):
+            c = getattr(m, n.test.comparators[0].id)[0]
+            is_keyed = any(isinstance(x, ast.Subscript) and ast.unparse(x.slice) == "k[1:]" for b in n.body for x in ast.walk(b))
+            (keyed if is_keyed else whole).append(c)
+    if set(keyed) & set(whole) or set(keyed + whole) != set(order) - {256}:
+        raise ValueError(f"_parse_global_map: field tables malformed: whole={whole} keyed={keyed} order={order}")
+    always = sorted(c for c in (m.PSBT_GLOBAL_TX_VERSION[0], m.PSBT_GLOBAL_INPUT_COUNT[0], m.PSBT_GLOBAL_OUTPUT_COUNT[0]))
+
+    def lst(xs):
+        return "[" + ", ".join(str(x) for x in xs) + "]"
+
+    t = f"/-- `Psbt.serialize`: emission order of the global map (256 = `unknown`) -/\ndef PSBT_GLOBAL_ORDER : List Nat := {lst(order)}\n"
+    t += f"def PSBT_GLOBAL_WHOLE : List Nat := {lst(sorted(whole))}\n"
+    t += f"def PSBT_GLOBAL_KEYED : List Nat := {lst(sorted(keyed))}\n"
+    t += f"/-- `_V2_GLOBAL_FIELDS` -/\ndef PSBT_GLOBAL_V2 : List Nat := {lst(sorted(k[0] for k in m._V2_GLOBAL_FIELDS))}\n"
+    t += f"/-- written under `is not None`, or unconditionally in their version (`_settle_globals` requires them) -/\ndef PSBT_GLOBAL_PRESENT_IF_NOT_NONE : List Nat := {lst(sorted(set(not_none) | set(always)))}\n"
+    t += f"def PSBT_GLOBAL_REQUIRED_V2 : List Nat := {lst(always)}\n"
+    t += f"def PSBT_GLOBAL_UNSIGNED_TX : Nat := {m.PSBT_GLOBAL_UNSIGNED_TX[0]}\n"
+    t += f"def PSBT_GLOBAL_VERSION : Nat := {m.PSBT_GLOBAL_VERSION[0]}\n"
+    t += f"def PSBT_GLOBAL_UINT32 : List Nat := {lst(sorted([m.PSBT_GLOBAL_TX_VERSION[0], m.PSBT_GLOBAL_FALLBACK_LOCKTIME[0], m.PSBT_GLOBAL_VERSION[0]]))}\n"
+    t += f"def PSBT_GLOBAL_COUNTS : List Nat := {lst(sorted([m.PSBT_GLOBAL_INPUT_COUNT[0], m.PSBT_GLOBAL_OUTPUT_COUNT[0]]))}\n"
+    t += f"def PSBT_GLOBAL_TX_MODIFIABLE : Nat := {m.PSBT_GLOBAL_TX_MODIFIABLE[0]}\n"
+    t += f"def PSBT_GLOBAL_XPUB : Nat := {m.PSBT_GLOBAL_XPUB[0]}\n"
+    return t
+
+
+def _psbt_out_tables():
+    """tables of PsbtOut, read off the syntax tree of `PsbtOut.serialize` (with the `_serialized_*` helpers it
+    calls, in call order) and `PsbtOut.parse`"""
+    from btclib.psbt import psbt_out as m
+    modtree = ast.parse(inspect.getsource(m))
+    funcs = {n.name: n for n in modtree.body if isinstance(n, ast.FunctionDef)}
+    cls = next(n for n in modtree.body if isinstance(n, ast.ClassDef) and n.name == "PsbtOut")
+    meth = {n.name: n for n in cls.body if isinstance(n, ast.FunctionDef)}
+
+    def const_of(node):
+        if isinstance(node, ast.Name) and node.id.startswith("PSBT_OUT_"):
+            return getattr(m, node.id)[0]
+        if isinstance(node, ast.Constant) and node.value == b"":
+            return 256
+        return None
+
+    order, not_none = [], []
+
+    class V(ast.NodeVisitor):
+        def __init__(self):
+            self.in_not_none = 0
+
+        def visit_If(self, node):
+            t_ = node.test
+            nn = (isinstance(t_, ast.Compare) and isinstance(t_.ops[0], ast.IsNot)
+                  and isinstance(t_.comparators[0], ast.Constant) and t_.comparators[0].value is None)
+            self.in_not_none += nn
+            for b in node.body:
+                self.visit(b)
+            self.in_not_none -= nn
+            for b in node.orelse:
+                self.visit(b)
+
+        def visit_Call(self, node):
+            name = getattr(node.func, "id", "")
+            if name in funcs and name.startswith("_serialized"):
+                self.visit(funcs[name])
+                return
+            if name.startswith("serialize") and node.args:
+                c = const_of(node.args[0])
+                if c is not None:
+                    order.append(c)
+                    if self.in_not_none:
+                        not_none.append(c)
+                    return
+            self.generic_visit(node)
+
+    V().visit(meth["serialize"])
+    if len(set(order)) != len(order) or order.count(256) != 1:
+        raise ValueError(f"PsbtOut.serialize: emission order malformed: {order}")
+    parse = meth["parse"]
+    keyed, whole = [], []
+    for n in ast.walk(parse):
+        if isinstance(n, ast.AnnAssign) and getattr(n.target, "id", "") == "key_data_fields" and isinstance(n.value, ast.Dict):
+            keyed = [const_of(k) for k in n.value.keys]
+        if isinstance(n, ast.Compare) and isinstance(n.ops[0], ast.Eq) and ast.unparse(n.left) == "k[:1]":
+            c = const_of(n.comparators[0])
+            if c is not None:
+                whole.append(c)
+    whole += [k[0] for k in m._SP_FIELDS]
+    if not keyed or None in keyed or set(keyed) & set(whole) or set(keyed + whole) != set(order) - {256}:
+        raise ValueError(f"PsbtOut.parse: field tables malformed: whole={whole} keyed={keyed} order={order}")
+
+    def lst(xs):
+        return "[" + ", ".join(str(x) for x in xs) + "]"
+
+    t = f"/-- `PsbtOut.serialize`: emission order (256 = the `unknown` records) -/\ndef PSBT_OUT_ORDER : List Nat := {lst(order)}\n"
+    t += f"/-- `PsbtOut.parse`: whole-value fields -/\ndef PSBT_OUT_WHOLE : List Nat := {lst(sorted(whole))}\n"
+    t += f"/-- `PsbtOut.parse`: key-data fields -/\ndef PSBT_OUT_KEYED : List Nat := {lst(sorted(keyed))}\n"
+    t += f"/-- `psbt_out._V2_FIELDS` -/\ndef PSBT_OUT_V2 : List Nat := {lst(sorted(k[0] for k in m._V2_FIELDS))}\n"
+    t += f"/-- fields `PsbtOut.serialize` writes under `is not None` -/\ndef PSBT_OUT_PRESENT_IF_NOT_NONE : List Nat := {lst(sorted(not_none))}\n"
     return t
 
 
